@@ -12,7 +12,16 @@ package main
 //	                                casIfBelow:F  if x < revision { atomic.CompareAndSwapUint64(&n.F, x, revision) }   (x loaded from F just before)
 //	                                ?<what>       anything else (also listed in tsoShapeUnresolved)
 //	tsoInitShape                  the same for naiveTSO.Init
-//	tsoDealIsAtomicAdd            Deal's body is `return atomic.AddUint64(&n.dealRevision, 1), <named result | nil>`
+//	tsoDealShape                  naiveTSO.Deal's body, normalised the same way:
+//	                                loop{ … }     for { … } without init / condition / post, around the tokens of its statements
+//	                                load:F        x := atomic.LoadUint64(&n.F)
+//	                                refuseIfWindowFull:K   if d >= c && d+1-c >= K { return 0, <package-level errors.New var> }
+//	                                              (d: the variable loaded from dealRevision, c: the one loaded from committedRevision,
+//	                                               K: a package-level constant)
+//	                                casIncReturn:F  if atomic.CompareAndSwapUint64(&n.F, d, d+1) { return d + 1, nil }   (F = dealRevision)
+//	                                returnAdd1:F  return atomic.AddUint64(&n.F, 1), <named result | nil>   (the routine before 624b477)
+//	tsoMaxInFlight                the value of the constant MaxInFlight (the window the LTS is instantiated with; required to
+//	                              equal the backend's slot ring KB.Generated.watchersChanCapacity by source_matches_lts)
 //	tsoGetIsAtomicLoad            GetRevision's body is `return atomic.LoadUint64(&n.committedRevision)`
 //	tsoRegistersOnlyTouchedInTso  the two (unexported) fields are named nowhere in package tso except in their
 //	                              declaration (as uint64) and as `&n.F` first argument of a sync/atomic call inside the four
@@ -142,12 +151,121 @@ func (m *tsoMethod) shape(param string) (toks []string, bad []string) {
 	return
 }
 
+func isIntLit(e ast.Expr, v string) bool {
+	lit, ok := e.(*ast.BasicLit)
+	return ok && lit.Kind == token.INT && lit.Value == v
+}
+
+// isPlusOne recognises `<x> + 1`
+func isPlusOne(e ast.Expr, x string) bool {
+	be, ok := e.(*ast.BinaryExpr)
+	return ok && be.Op == token.ADD && isIdent(be.X, x) && isIntLit(be.Y, "1")
+}
+
+// dealShape normalises the body of Deal (see the file comment for the tokens).
+func (m *tsoMethod) dealShape(p *pkgInfo) (toks []string, bad []string) {
+	unknown := func(st ast.Stmt) {
+		tok := strings.Replace(fmt.Sprintf("?%T", st), "*ast.", "", 1)
+		toks = append(toks, tok)
+		bad = append(bad, "tso.go:Deal statement "+tok)
+	}
+	if len(m.fd.Body.List) != 1 {
+		for _, st := range m.fd.Body.List {
+			unknown(st)
+		}
+		if len(m.fd.Body.List) == 0 {
+			bad = append(bad, "tso.go:Deal empty body")
+		}
+		return
+	}
+	switch top := m.fd.Body.List[0].(type) {
+	case *ast.ReturnStmt:
+		// return atomic.AddUint64(&n.dealRevision, 1), err   (err: the named, never assigned error result; or nil)
+		if len(top.Results) == 2 {
+			op, f, rest, okc := m.atomicCall(top.Results[0])
+			errName := ""
+			if res := m.fd.Type.Results; res != nil && len(res.List) == 2 && len(res.List[1].Names) == 1 && isIdent(res.List[1].Type, "error") {
+				errName = res.List[1].Names[0].Name
+			}
+			second := isIdent(top.Results[1], "nil") || (errName != "" && errName != "_" && isIdent(top.Results[1], errName))
+			if okc && op == "AddUint64" && len(rest) == 1 && isIntLit(rest[0], "1") && second {
+				toks = append(toks, "returnAdd1:"+f)
+				return
+			}
+		}
+		unknown(top)
+	case *ast.ForStmt:
+		if top.Init != nil || top.Cond != nil || top.Post != nil {
+			unknown(top)
+			return
+		}
+		toks = append(toks, "loop{")
+		loaded := map[string]string{} // field -> variable holding its last loaded value
+		used := map[string]bool{m.recv: true, "_": true}
+		for _, st := range top.Body.List {
+			tok := ""
+			switch s := st.(type) {
+			case *ast.AssignStmt:
+				if s.Tok == token.DEFINE && len(s.Lhs) == 1 && len(s.Rhs) == 1 {
+					x, okx := s.Lhs[0].(*ast.Ident)
+					if op, f, rest, ok := m.atomicCall(s.Rhs[0]); ok && okx && op == "LoadUint64" && len(rest) == 0 && !used[x.Name] {
+						tok = "load:" + f
+						loaded[f] = x.Name
+						used[x.Name] = true
+					}
+				}
+			case *ast.IfStmt:
+				if s.Init != nil || s.Else != nil || len(s.Body.List) != 1 {
+					break
+				}
+				rs, okr := s.Body.List[0].(*ast.ReturnStmt)
+				if !okr || len(rs.Results) != 2 {
+					break
+				}
+				d, c := loaded[tsoFieldD], loaded[tsoFieldC]
+				if cond, ok := s.Cond.(*ast.BinaryExpr); ok && cond.Op == token.LAND && d != "" && c != "" {
+					// d >= c && d+1-c >= K  →  return 0, <errors.New var>
+					ge, ok1 := cond.X.(*ast.BinaryExpr)
+					wk, ok2 := cond.Y.(*ast.BinaryExpr)
+					if ok1 && ok2 && ge.Op == token.GEQ && isIdent(ge.X, d) && isIdent(ge.Y, c) && wk.Op == token.GEQ {
+						sub, ok3 := wk.X.(*ast.BinaryExpr)
+						k, ok4 := wk.Y.(*ast.Ident)
+						errV, ok5 := rs.Results[1].(*ast.Ident)
+						if ok3 && ok4 && ok5 && sub.Op == token.SUB && isPlusOne(sub.X, d) && isIdent(sub.Y, c) &&
+							!p.topIsVar[k.Name] && p.topVals[k.Name] != nil && !used[k.Name] && isIntLit(rs.Results[0], "0") &&
+							p.topIsVar[errV.Name] && !used[errV.Name] {
+							if call, isC := p.topVals[errV.Name].(*ast.CallExpr); isC && typeName(call.Fun) == "errors.New" {
+								tok = "refuseIfWindowFull:" + k.Name
+							}
+						}
+					}
+				} else if op, f, rest, okc := m.atomicCall(s.Cond); okc && op == "CompareAndSwapUint64" && f == tsoFieldD && d != "" &&
+					len(rest) == 2 && isIdent(rest[0], d) && isPlusOne(rest[1], d) &&
+					isPlusOne(rs.Results[0], d) && isIdent(rs.Results[1], "nil") {
+					tok = "casIncReturn:" + f
+				}
+			}
+			if tok == "" {
+				unknown(st)
+				continue
+			}
+			toks = append(toks, tok)
+		}
+		toks = append(toks, "}")
+	default:
+		unknown(top)
+	}
+	return
+}
+
 func genTsoShapeFacts(sb *strings.Builder) {
 	var unresolved []string
 	pr := loadProgram()
 	p := pr.pkgs[tsoDir]
 	commitShape, initShape := []string{}, []string{}
-	dealOK, getOK, onlyHere := false, false, false
+	getOK, onlyHere := false, false
+	dealShape := []string{}
+	maxInFlight := 0
 	mentions := 0
 	if p == nil {
 		unresolved = append(unresolved, "package "+tsoDir+" not found")
@@ -215,23 +333,21 @@ func genTsoShapeFacts(sb *strings.Builder) {
 			}
 		}
 		noParams := func(fd *ast.FuncDecl) bool { return fd.Type.Params == nil || len(fd.Type.Params.List) == 0 }
-		if m := meth["Deal"]; m != nil && noParams(m.fd) && len(m.fd.Body.List) == 1 {
-			// return atomic.AddUint64(&n.dealRevision, 1), err   (err: the named, never assigned error result; or nil)
-			if rs, ok := m.fd.Body.List[0].(*ast.ReturnStmt); ok && len(rs.Results) == 2 {
-				op, f, rest, okc := m.atomicCall(rs.Results[0])
-				one := false
-				if okc && len(rest) == 1 {
-					if lit, isL := rest[0].(*ast.BasicLit); isL && lit.Kind == token.INT && lit.Value == "1" {
-						one = true
-					}
-				}
-				errName := ""
-				if res := m.fd.Type.Results; res != nil && len(res.List) == 2 && len(res.List[1].Names) == 1 && isIdent(res.List[1].Type, "error") {
-					errName = res.List[1].Names[0].Name
-				}
-				second := isIdent(rs.Results[1], "nil") || (errName != "" && errName != "_" && isIdent(rs.Results[1], errName))
-				dealOK = okc && op == "AddUint64" && f == tsoFieldD && one && second
+		if m := meth["Deal"]; m != nil && noParams(m.fd) {
+			var bad []string
+			dealShape, bad = m.dealShape(p)
+			unresolved = append(unresolved, bad...)
+		} else if m != nil {
+			unresolved = append(unresolved, "tso.go:Deal signature")
+		}
+		if e, ok := p.topVals["MaxInFlight"]; ok && !p.topIsVar["MaxInFlight"] {
+			if n, ok2 := evalInt(e, p.topVals, 0); ok2 && n >= 0 {
+				maxInFlight = int(n)
+			} else {
+				unresolved = append(unresolved, "tso.go: const MaxInFlight value")
 			}
+		} else {
+			unresolved = append(unresolved, "tso.go: const MaxInFlight")
 		}
 		if m := meth["GetRevision"]; m != nil && noParams(m.fd) && len(m.fd.Body.List) == 1 {
 			if rs, ok := m.fd.Body.List[0].(*ast.ReturnStmt); ok && len(rs.Results) == 1 {
@@ -322,7 +438,8 @@ func genTsoShapeFacts(sb *strings.Builder) {
 	}
 	fmt.Fprintf(sb, "def tsoCommitShape : List String := %s\n", leanStrList(commitShape))
 	fmt.Fprintf(sb, "def tsoInitShape : List String := %s\n", leanStrList(initShape))
-	fmt.Fprintf(sb, "def tsoDealIsAtomicAdd : Bool := %v\n", dealOK)
+	fmt.Fprintf(sb, "def tsoDealShape : List String := %s\n", leanStrList(dealShape))
+	fmt.Fprintf(sb, "def tsoMaxInFlight : Nat := %d\n", maxInFlight)
 	fmt.Fprintf(sb, "def tsoGetIsAtomicLoad : Bool := %v\n", getOK)
 	fmt.Fprintf(sb, "def tsoRegistersOnlyTouchedInTso : Bool := %v\n", onlyHere)
 	fmt.Fprintf(sb, "def tsoRegisterMentions : Nat := %d\n", mentions)
